@@ -93,3 +93,17 @@ pub fn quiet_panics() {
 pub fn pick<'a, T>(r: &mut StdRng, xs: &'a [T]) -> &'a T {
     &xs[r.gen_range(0..xs.len())]
 }
+
+/// Run a closure inside a rayon pool of `n` threads (the library's parallel loops then see that pool).
+pub fn in_pool<T: Send, F: FnOnce() -> T + Send>(n: usize, f: F) -> T {
+    rayon::ThreadPoolBuilder::new().num_threads(n).build().expect("pool").install(f)
+}
+
+/// Pool sizes for case `k`: `m` sizes (m >= 2) that run through every size from 1 to 16 as k advances (a result
+/// must not depend on how many workers share the work), the last one always being the machine's 16.
+pub fn pools_for(k: usize, m: usize) -> Vec<usize> {
+    let mut v: Vec<usize> = (0..m - 1).map(|i| 1 + (k + 5 * i) % 15).collect();
+    v.dedup();
+    v.push(16);
+    v
+}
